@@ -552,11 +552,14 @@ def check(ctx):
     cfg = CFG(sfd.node)
     loops = [s for s in cfg.stmts if isinstance(s, ast.For)]
     guard = None
-    for s in cfg.stmts:
-        if isinstance(s, ast.If) and isinstance(s.test, ast.BinOp) and isinstance(
-                s.test.op, ast.Mod) and any(isinstance(b, ast.Raise) for b in s.body):
-            guard = s
     r_sfd = evaluate(repo, sfd, inline=None)
+    # the guard: the `if` whose raise sits under a `... % ...` condition (however the test
+    # is spelled: `d % c`, `d % c != 0`, `not d % c == 0`)
+    mod_raises = [node for (cond, exc, node) in r_sfd.raises
+                  if any(a[0] == "op" and a[1] == "%" for a, _ in cond)]
+    for s in cfg.stmts:
+        if isinstance(s, ast.If) and any(b in mod_raises for b in ast.walk(s)):
+            guard = s
     chunk_t = ("a", n("self"), "_jitted_sample_duration")
     dur = n("duration")
     if guard is not None and len(loops) == 1:
